@@ -20,14 +20,14 @@ Definition wfn (f : nat) (args : list val) : option val :=
          end
   end.
 
-Definition int_arg (k : key) (d : val) : decl := {| d_key := k; d_kind := KPlain TInt; d_default := d; d_required := false |}.
+Definition int_arg (k : key) (d : val) : decl := {| d_key := k; d_kind := KPlain TInt; d_default := d; d_required := false; d_alias := true |}.
 
 (* ------------------------------------------------------------------ a well-behaved parser
    --a int=1, --b int=2, --t int (required); link_arguments(("a","b"), "t", add).
    Input: APP_A=4 in the environment, then --cfg={"t": 99, "a": 5} --b=7 : the config supplies a value for the target. *)
 Definition ex_decls : list decl :=
   [int_arg [sA] (VInt 1); int_arg [sB] (VInt 2);
-   {| d_key := [sT]; d_kind := KPlain TInt; d_default := VNone; d_required := true |}].
+   {| d_key := [sT]; d_kind := KPlain TInt; d_default := VNone; d_required := true; d_alias := true |}].
 Definition ex_links : list link := [{| l_src := [[sA]; [sB]]; l_tgt := [sT]; l_fn := Some 0 |}].
 Definition ex_input : input :=
   InArgs [([sA], VInt 4)] [Cfg (VMap [(sT, VInt 99); (sA, VInt 5)]); Opt [sB] (VInt 7)].
@@ -45,6 +45,9 @@ Example ex_required_after : p_req (fst (build ex_decls ex_links)) = [].
 Proof. vm_compute. reflexivity. Qed.
 Example ex_option_rejected :
   parse wfn [] (fst (build ex_decls ex_links)) (InArgs [] [Opt [sA] (VInt 3); Opt [sT] (VInt 5)]) = Err ELinked.
+Proof. vm_compute. reflexivity. Qed.
+Example ex_alias_rejected :
+  parse wfn [] (fst (build ex_decls ex_links)) (InArgs [] [OptAlias [sA] (VInt 3); OptAlias [sT] (VInt 5)]) = Err ELinked.
 Proof. vm_compute. reflexivity. Qed.
 Example ex_dump : strip (fst (build ex_decls ex_links)) ex_cfg = VMap [(sA, VInt 5); (sB, VInt 7)].
 Proof. vm_compute. reflexivity. Qed.
@@ -99,7 +102,7 @@ Proof. vm_compute. reflexivity. Qed.
    --u int=7, --cs List[Base]=[]; link_arguments("u","cs.init_args.q"); --cs=[{"class_path": "c15mod.Base"}]. *)
 Definition li_classes : list cls := [{| c_name := sBase; c_params := [(sP, TInt, Some (VInt 1)); (sQ, TInt, Some (VInt 2))] |}].
 Definition li_decls : list decl :=
-  [int_arg [sU] (VInt 7); {| d_key := [sCS]; d_kind := KClassList; d_default := VList []; d_required := false |}].
+  [int_arg [sU] (VInt 7); {| d_key := [sCS]; d_kind := KClassList; d_default := VList []; d_required := false; d_alias := false |}].
 Definition li_links : list link := [{| l_src := [[sU]]; l_tgt := [sCS; init_args; sQ]; l_fn := None |}].
 Definition li_item (q : Z) : val :=
   VMap [(class_path, VStr sBase); (init_args, VMap [(sP, VInt 1); (sQ, VInt q)])].
@@ -150,8 +153,8 @@ Definition sLst : str := [99;49;53;109;111;100;46;76;115;116]%N.   (* "c15mod.Ls
 Definition sk_classes : list cls :=
   li_classes ++ [{| c_name := sLst; c_params := [(sP, TInt, Some (VInt 3)); (sL, TListInt, Some (VList [VInt 7]))] |}].
 Definition sk_decls : list decl :=
-  [{| d_key := [sC]; d_kind := KClass; d_default := VNone; d_required := false |};
-   {| d_key := [sD]; d_kind := KClass; d_default := VNone; d_required := false |}].
+  [{| d_key := [sC]; d_kind := KClass; d_default := VNone; d_required := false; d_alias := false |};
+   {| d_key := [sD]; d_kind := KClass; d_default := VNone; d_required := false; d_alias := false |}].
 Definition sk_links : list link := [{| l_src := [[sC; init_args; sQ]]; l_tgt := [sD; init_args; sL]; l_fn := None |}].
 Definition sk_obj (l : list val) : val := VMap [(class_path, VStr sLst); (init_args, VMap [(sP, VInt 3); (sL, VList l)])].
 Definition sk_cfg : val := VMap [(sC, sk_obj [VInt 7]); (sD, sk_obj [])].
